@@ -6,6 +6,13 @@ selection, trimming fraction, function) over small dyadic alphabets is pushed
 through the real functions of mystic.math.measures / distance / approx; every
 result is converted to exact rationals and judged by ref/stats.py (Fraction).
 
+Two input classes go beyond the O(1) alphabets: (a) *large-offset* sample vectors (offset +
+alphabet, |mean| >> spread) and impose_mean targets of that size, judged with a tolerance that is
+the first-order propagation of a few ulps of position noise (see `noise`, `P.tol`) - a two-pass
+evaluation meets it with margin, one that cancels raw moments cannot; (b) index / pair selections
+that name positions by *negative indices*, in particular one position named p in one pair and
+p - n in another (`render`, `negative_pair_selections`).
+
 A *clause* is one library entry point with one parameter tuple; a clause returns
 an outcome label (histogrammed, exposes vacuity), the list of problems found and
 the number of library calls made.  `replay` re-runs exactly one clause.
@@ -24,6 +31,11 @@ FUNCS = {'x': lambda p: p[0], 'x*x': lambda p: p[0] * p[0], 'abs': lambda p: abs
 TOLS = [0.0, 0.25]
 REL = 1e-12
 INF = float('inf')
+# samples with a large common offset (|mean| >> spread): offset + small alphabet, exact in binary64
+OFFSETS = [2.0 ** 20, -(2.0 ** 26)]
+BIG_TARGETS = [2.0 ** 26, -(2.0 ** 20) - 0.5]          # impose_mean targets of that size
+U = 2.0 ** -53                                           # unit roundoff
+KNOISE = 32                                              # rounding steps granted per stored position
 
 
 # ------------------------------------------------------------------ helpers
@@ -38,15 +50,40 @@ def isbad(v):
         return True
 
 
-def near(got, want):
-    """got (float) ~ want (exact or float) within REL relative, absolute floor 1"""
+def near(got, want, extra=0.0):
+    """got (float) ~ want (exact or float): |got - want| <= REL * max(|want|, 1) + extra
+
+    `extra` is the propagated position noise of the clause (see `noise` / `P.tol`); it is
+    ~1e-14 for the O(1) alphabets and only matters for the large-offset vectors"""
     try:
         g = float(got)
-    except (TypeError, ValueError):
+        w = float(want)
+    except (TypeError, ValueError, OverflowError):
         return False
     if not math.isfinite(g):
         return False
-    return R.close(g, want, REL, 1)
+    return abs(g - w) <= REL * max(abs(w), 1) + extra
+
+
+def mag(*groups):
+    """largest magnitude among numbers / lists of numbers (callers have already rejected non-finite entries)"""
+    m = 0.0
+    for g in groups:
+        if g is None:
+            continue
+        if isinstance(g, (list, tuple)) or getattr(g, 'ndim', 0):
+            v = float(max(map(abs, g))) if len(g) else 0.0
+        else:
+            v = abs(float(g))
+        if v > m:
+            m = v
+    return m
+
+
+def noise(*groups):
+    """position noise a = KNOISE * 2**-53 * M, M the largest magnitude a correct shift/scale
+    implementation has to store (inputs, outputs, targets, scaled intermediates)"""
+    return KNOISE * U * mag(*groups)
 
 
 def changed(y, xs):
@@ -84,48 +121,64 @@ def _plain(a):
 class P(object):
     """problem collector of one clause execution"""
 
-    def __init__(self):
+    def __init__(self, a=0.0):
         self.items = []
         self.calls = 0
+        self.a = a          # position noise (absolute) of this clause
 
     def add(self, sub, text):
         self.items.append((sub, text))
 
-    def want(self, sub, got, want, what, tag=''):
-        if not near(got, want):
-            self.add(sub, '%s%s = %r, reference %s (= %.17g)' % (what, tag, got, want, float(want)))
+    def tol(self, k, D):
+        """bound on the change of a degree-k statistic of deviations |d| <= D when every
+        deviation moves by at most 2a (a for the point, a for the mean): (D+2a)^k - D^k;
+        k = 1 gives 2a, k = 2 gives ~ 4 a D, i.e. relative ~ eps * M / D for a variance"""
+        D = float(D)
+        return (D + 2 * self.a) ** k - D ** k
 
-    def want_root(self, sub, got, radicand, p, what, tag=''):
-        if not R.close_root(got, radicand, p, REL, 1):
+    def want(self, sub, got, want, what, tag='', extra=0.0):
+        if not near(got, want, extra):
+            self.add(sub, '%s%s = %r, reference %s (= %.17g), allowed error %.3g' % (
+                what, tag, got, want, float(want), REL * max(abs(float(want)), 1) + extra))
+
+    def want_root(self, sub, got, radicand, p, what, tag='', extra=0.0):
+        want = float(radicand) ** (1.0 / p)
+        if not near(got, want, extra):
             what = what + tag
-            self.add(sub, '%s = %r, reference (%s)**(1/%s) = %.17g' % (what, got, radicand, p, float(radicand) ** (1.0 / p)))
+            self.add(sub, '%s = %r, reference (%s)**(1/%s) = %.17g, allowed error %.3g' % (
+                what, got, radicand, p, want, REL * max(abs(want), 1) + extra))
 
 
 # ------------------------------------------------------------------ definition clauses
 def c_defs(xs, ws):
     import mystic.math.measures as mm
-    p = P()
+    p = P(noise(xs))
+    a, D = p.a, float(R.spread(xs))
     m = R.wmean(xs, ws)
     p.calls += 14
-    p.want('mean', mm.mean(xs, ws), m, 'mean(%r,%r)' % (xs, ws))
+    p.want('mean', mm.mean(xs, ws), m, 'mean(%r,%r)' % (xs, ws), extra=a)
     got = mm.mean(xs, ws, tol=0.5)
     if abs(m) <= F(1, 2):
         if got != 0.0:
             p.add('mean_tol', 'mean(%r,%r,tol=0.5) = %r but |mean| = %s <= tol must give 0.0' % (xs, ws, got, abs(m)))
     else:
-        p.want('mean_tol', got, m, 'mean(%r,%r,tol=0.5)' % (xs, ws))
+        p.want('mean_tol', got, m, 'mean(%r,%r,tol=0.5)' % (xs, ws), extra=a)
     var = R.wvariance(xs, ws)
-    p.want('variance', mm.variance(xs, ws), var, 'variance(%r,%r)' % (xs, ws))
-    p.want_root('std', mm.std(xs, ws), var, 2, 'std(%r,%r)' % (xs, ws))
+    p.want('variance', mm.variance(xs, ws), var, 'variance(%r,%r)' % (xs, ws), extra=p.tol(2, D))
+    p.want_root('std', mm.std(xs, ws), var, 2, 'std(%r,%r)' % (xs, ws), extra=2 * a)
     for order in (0, 1, 2, 3, 4):
         want = F(1) if order == 0 else R.wmoment(xs, ws, order)
-        p.want('moment', mm.moment(xs, ws, order), want, 'moment(%r,%r,order=%d)' % (xs, ws, order))
+        p.want('moment', mm.moment(xs, ws, order), want, 'moment(%r,%r,order=%d)' % (xs, ws, order),
+               extra=p.tol(order, D) if order > 1 else 0.0)
     if var > 0:
         m3, m4 = R.wmoment(xs, ws, 3), R.wmoment(xs, ws, 4)
-        p.want('kurtosis', mm.kurtosis(xs, ws), m4 / var ** 2, 'kurtosis(%r,%r)' % (xs, ws))
+        sd = float(var) ** 0.5
+        # dimensionless ratios: relative error <= (4 + 2*2) * 2a / std (kurtosis), (3 + 3|skew|) * 2a / std (skewness)
+        p.want('kurtosis', mm.kurtosis(xs, ws), m4 / var ** 2, 'kurtosis(%r,%r)' % (xs, ws),
+               extra=16 * a / sd * float(m4 / var ** 2))
         want = float(m3) / float(var) ** 1.5
         got = mm.skewness(xs, ws)
-        if not (math.isfinite(float(got)) and abs(float(got) - want) <= REL * max(1.0, abs(want))):
+        if not near(got, want, (3 + 3 * abs(want)) * 2 * a / sd):
             p.add('skewness', 'skewness(%r,%r) = %r, reference m3/var^1.5 = %.17g' % (xs, ws, got, want))
     if mm.spread(xs) != float(R.spread(xs)):
         p.add('spread', 'spread(%r) = %r, reference %s' % (xs, mm.spread(xs), R.spread(xs)))
@@ -133,14 +186,14 @@ def c_defs(xs, ws):
         p.want('norm', mm.norm(ws), R.wmean(ws), 'norm(%r)' % (ws,))
     else:
         got = mm.median(xs)
-        if not near(got, R.median(xs)):
+        if not near(got, R.median(xs), a):
             p.add('median_unweighted', 'median(%r) = %r, textbook %s' % (xs, got, R.median(xs)))
         got = mm.mad(xs)
-        if not near(got, R.mad(xs)):
+        if not near(got, R.mad(xs), 2 * a):
             p.add('mad_unweighted', 'mad(%r) = %r, textbook %s' % (xs, got, R.mad(xs)))
     # 0% trimming is the plain weighted mean / variance
-    p.want('tmean_k0', mm.tmean(xs, ws, k=0), m, 'tmean(%r,%r,k=0)' % (xs, ws))
-    p.want('tvariance_k0', mm.tvariance(xs, ws, k=0), var, 'tvariance(%r,%r,k=0)' % (xs, ws))
+    p.want('tmean_k0', mm.tmean(xs, ws, k=0), m, 'tmean(%r,%r,k=0)' % (xs, ws), extra=a)
+    p.want('tvariance_k0', mm.tvariance(xs, ws, k=0), var, 'tvariance(%r,%r,k=0)' % (xs, ws), extra=p.tol(2, D))
     return 'ok', p
 
 
@@ -149,7 +202,9 @@ def c_expect(xs, ws, fname, tol):
     f = FUNCS[fname]
     pts = [(x,) for x in xs]
     rpts = [(R.fr(x),) for x in xs]
-    p = P()
+    fv = [f(q) for q in rpts]
+    p = P(noise(xs, [float(v) for v in fv]))
+    a, D = p.a, float(max(fv) - min(fv))
     tag = Lazy('(f=%s, %r, %r, tol=%r)', fname, pts, ws, tol)
     e = R.expectation(f, rpts, ws, tol)
     if e is None:
@@ -157,13 +212,14 @@ def c_expect(xs, ws, fname, tol):
     else:
         outcome = 'ok'
         p.calls += 5
-        p.want('expectation', mm.expectation(f, pts, ws, tol), e, 'expectation', tag)
+        p.want('expectation', mm.expectation(f, pts, ws, tol), e, 'expectation', tag, extra=a)
         v = R.expected_moment(f, rpts, ws, 2, tol)
-        p.want('expected_variance', mm.expected_variance(f, pts, ws, tol), v, 'expected_variance', tag)
-        p.want_root('expected_std', mm.expected_std(f, pts, ws, tol), v, 2, 'expected_std', tag)
+        p.want('expected_variance', mm.expected_variance(f, pts, ws, tol), v, 'expected_variance', tag, extra=p.tol(2, D))
+        p.want_root('expected_std', mm.expected_std(f, pts, ws, tol), v, 2, 'expected_std', tag, extra=2 * a)
         for order in (2, 3):
             p.want('_expected_moment', mm._expected_moment(f, pts, ws, order, tol),
-                   R.expected_moment(f, rpts, ws, order, tol), '_expected_moment(order=%d)' % order, tag)
+                   R.expected_moment(f, rpts, ws, order, tol), '_expected_moment(order=%d)' % order, tag,
+                   extra=p.tol(order, D))
     vals = R.ess_values(f, rpts, ws, tol)
     if not vals:
         outcome += '+empty_support'
@@ -204,21 +260,30 @@ def _supp_spread(y, ws):
 
 def c_mean(xs, ws, m):
     import mystic.math.measures as mm
-    p = P(); p.calls = 1
+    p = P(); p.calls = 3
     y = mm.impose_mean(m, xs, ws)
     tag = Lazy('impose_mean(%r,%r,%r) -> %r', m, xs, ws, y)
     if len(y) != len(xs) or isbad(y):
         p.add('shape', tag + ': wrong length or non-finite entries')
         return 'bad', p
-    p.want('target', float(R.wmean(y, ws)), m, 'weighted mean after ', tag)
-    p.want('keeps_spread', float(R.spread(y)), R.spread(xs), 'spread after ', tag)
-    p.want('keeps_weighted_range', float(_supp_spread(y, ws)), _supp_spread(xs, ws), 'range of the support after ', tag)
-    p.want('keeps_variance', float(R.wvariance(y, ws)), R.wvariance(xs, ws), 'weighted variance after ', tag)
+    a = p.a = noise(xs, m, y)
+    D = float(R.spread(xs))
+    vy = R.wvariance(y, ws)
+    p.want('target', float(R.wmean(y, ws)), m, 'weighted mean after ', tag, extra=a)
+    p.want('keeps_spread', float(R.spread(y)), R.spread(xs), 'spread after ', tag, extra=2 * a)
+    p.want('keeps_weighted_range', float(_supp_spread(y, ws)), _supp_spread(xs, ws), 'range of the support after ', tag, extra=2 * a)
+    p.want('keeps_variance', float(vy), R.wvariance(xs, ws), 'weighted variance after ', tag, extra=p.tol(2, D))
+    # the library's own statistics on the shifted (full-mantissa, possibly far-from-zero) output:
+    # "does not alter the weighted variance" must also hold as observed through mystic
+    y = fl(y)
+    p.want('mean_of_output', mm.mean(y, ws), R.wmean(y, ws), 'mean of the output of ', tag, extra=a)
+    p.want('variance_of_output', mm.variance(y, ws), vy, 'variance of the output of ', tag, extra=p.tol(2, D + 2 * a))
     return ('ok:changed' if changed(y, xs) else 'ok:identity'), p
 
 
-def _scale_clause(name, xs, ws, t, fn_name, stat, stat_name, target):
-    """common body of impose_variance / impose_std / impose_spread"""
+def _scale_clause(name, xs, ws, t, fn_name, stat, stat_name, target, deg, ratio):
+    """common body of impose_variance / impose_std / impose_spread; `deg` is the degree of the
+    statistic in the deviations, `ratio(t, s0)` the factor a scale-then-shift construction applies"""
     import mystic.math.measures as mm
     p = P()
     if t < 0:
@@ -233,21 +298,25 @@ def _scale_clause(name, xs, ws, t, fn_name, stat, stat_name, target):
     if len(y) != len(xs) or isbad(y):
         p.add('shape', tag + ': wrong length or non-finite entries for a defined operation')
         return 'bad', p
-    p.want('target', float(stat(y, ws)), target, stat_name + ' after ', tag)
-    p.want('keeps_mean', float(R.wmean(y, ws)), R.wmean(xs, ws), 'weighted mean after ', tag)
+    a = p.a = noise(xs, y, t, mag(xs) * (ratio(t, float(s0)) if s0 else 0.0))
+    p.want('target', float(stat(y, ws)), target, stat_name + ' after ', tag, extra=p.tol(deg, R.spread(y)))
+    p.want('keeps_mean', float(R.wmean(y, ws)), R.wmean(xs, ws), 'weighted mean after ', tag, extra=a)
     return ('ok:changed' if changed(y, xs) else 'ok:identity'), p
 
 
 def c_variance(xs, ws, v):
-    return _scale_clause('variance', xs, ws, v, 'impose_variance', R.wvariance, 'weighted variance', v)
+    return _scale_clause('variance', xs, ws, v, 'impose_variance', R.wvariance, 'weighted variance', v,
+                         2, lambda t, s0: math.sqrt(t / s0))
 
 
 def c_std(xs, ws, s):
-    return _scale_clause('std', xs, ws, s, 'impose_std', R.wvariance, 'weighted variance (= std**2)', F(s) * F(s))
+    return _scale_clause('std', xs, ws, s, 'impose_std', R.wvariance, 'weighted variance (= std**2)', F(s) * F(s),
+                         2, lambda t, s0: t / math.sqrt(s0))
 
 
 def c_spread(xs, ws, r):
-    return _scale_clause('spread', xs, ws, r, 'impose_spread', lambda a, w: R.spread(a), 'spread', r)
+    return _scale_clause('spread', xs, ws, r, 'impose_spread', lambda a, w: R.spread(a), 'spread', r,
+                         1, lambda t, s0: t / s0)
 
 
 def c_moment(xs, ws, order, m):
@@ -256,7 +325,8 @@ def c_moment(xs, ws, order, m):
     if order % 2 == 0 and m < 0:
         return 'undefined:negative_even_moment', p
     src = [x * x for x in xs] if order % 2 else xs     # documented: skew allowed for odd orders
-    if R.wmoment(src, ws, order) == 0:
+    sv = R.wmoment(src, ws, order)
+    if sv == 0:
         return 'undefined:zero_source_moment', p
     p.calls = 1
     y = mm.impose_moment(m, xs, ws, order)
@@ -264,8 +334,10 @@ def c_moment(xs, ws, order, m):
     if len(y) != len(xs) or isbad(y):
         p.add('shape', tag + ': wrong length or non-finite entries for a defined operation')
         return 'bad', p
-    p.want('target', float(R.wmoment(y, ws, order)), m, 'moment of order %d after ' % order, tag)
-    p.want('keeps_mean', float(R.wmean(y, ws)), R.wmean(xs, ws), 'weighted mean after ', tag)
+    a = p.a = noise(xs, y, m, mag(src) * abs(m / float(sv)) ** (1.0 / order))
+    p.want('target', float(R.wmoment(y, ws, order)), m, 'moment of order %d after ' % order, tag,
+           extra=p.tol(order, R.spread(y)))
+    p.want('keeps_mean', float(R.wmean(y, ws)), R.wmean(xs, ws), 'weighted mean after ', tag, extra=a)
     return ('ok:changed' if changed(y, xs) else 'ok:identity'), p
 
 
@@ -278,9 +350,10 @@ def c_median(xs, ws, m):
     if len(y) != len(xs) or isbad(y):
         p.add('shape', tag + ': wrong length or non-finite entries')
         return 'bad', p
-    p.want('target', mm.median(y, ws), m, 'median (mystic) after ', tag)
-    p.want('keeps_spread', float(R.spread(y)), R.spread(xs), 'spread after ', tag)
-    p.want('keeps_mad', mm.mad(y, ws), float(mm.mad(xs, ws)), 'mad (mystic) after ', tag)
+    a = p.a = noise(xs, m, y)
+    p.want('target', mm.median(y, ws), m, 'median (mystic) after ', tag, extra=a)
+    p.want('keeps_spread', float(R.spread(y)), R.spread(xs), 'spread after ', tag, extra=2 * a)
+    p.want('keeps_mad', mm.mad(y, ws), float(mm.mad(xs, ws)), 'mad (mystic) after ', tag, extra=2 * a)
     out = 'ok:changed' if changed(y, xs) else 'ok:identity'
     if ws is not None:
         out += (':wmedian=lower_textbook' if near(mm.median(xs, ws), R.wmedian_lower(xs, ws)) else ':wmedian!=lower_textbook')
@@ -293,7 +366,8 @@ def c_mad(xs, ws, s):
     if s < 0:
         return 'undefined:negative_target', p
     p.calls = 1
-    if mm.mad(xs, ws) == 0:
+    mad0 = float(mm.mad(xs, ws))
+    if mad0 == 0:
         return 'undefined:zero_mad', p
     p.calls = 5
     y = mm.impose_mad(s, xs, ws)
@@ -305,13 +379,14 @@ def c_mad(xs, ws, s):
     # exactly tied in the input but come out of the rescaling one ulp apart change order, and with it the
     # statistic itself.  Such inputs sit on a discontinuity of the statistic ("reach their targets" is then
     # undefined to rounding): counted, not judged.
+    a = p.a = noise(xs, y, s, mag(xs) * s / mad0)
     med_y = float(mm.median(y, ws))
     dev = sorted(abs(float(v) - med_y) for v in y)
     scale = max(dev) or 1.0
-    if any(a != b and abs(a - b) <= 1e-9 * scale for a, b in zip(dev, dev[1:])):
+    if any(d != e and abs(d - e) <= 1e-9 * scale + 4 * a for d, e in zip(dev, dev[1:])):
         return 'undefined:rounding_split_tie', p
-    p.want('target', mm.mad(y, ws), s, 'mad (mystic) after ', tag)
-    p.want('keeps_median', med_y, float(mm.median(xs, ws)), 'median (mystic) after ', tag)
+    p.want('target', mm.mad(y, ws), s, 'mad (mystic) after ', tag, extra=2 * a)
+    p.want('keeps_median', med_y, float(mm.median(xs, ws)), 'median (mystic) after ', tag, extra=a)
     return ('ok:changed' if changed(y, xs) else 'ok:identity'), p
 
 
@@ -348,16 +423,20 @@ def c_tmean(xs, ws, m, k, clip):
     if len(y) != len(xs) or isbad(y):
         p.add('shape', tag + ': wrong length or non-finite entries for a defined operation')
         return 'bad', p
-    p.want('target', mm.tmean(y, ws, k, clip), m, 'tmean (mystic) after ', tag)
-    p.want('keeps_spread', float(R.spread(y)), R.spread(xs), 'spread after ', tag)
-    p.want('keeps_tvariance', mm.tvariance(y, ws, k, clip), v0, 'tvariance (mystic) after ', tag)
+    a = p.a = noise(xs, m, y)
+    D = float(R.spread(xs))
+    p.want('target', mm.tmean(y, ws, k, clip), m, 'tmean (mystic) after ', tag, extra=a)
+    p.want('keeps_spread', float(R.spread(y)), R.spread(xs), 'spread after ', tag, extra=2 * a)
+    p.want('keeps_tvariance', mm.tvariance(y, ws, k, clip), v0, 'tvariance (mystic) after ', tag, extra=p.tol(2, D))
     out = 'ok:changed' if changed(y, xs) else 'ok:identity'
     # definition: trimming k% of the *mass* from each end (boundary points keep the inside part of their
     # mass; clip moves the cut mass onto the boundary points).  mystic agrees with this form everywhere,
     # so it is judged (separate sub-clause), unlike the weighted median (DESIGN section 5).
     if rt is not None and rv is not None:
-        p.want('tmean_definition', t0, rt, 'tmean(%r,%r,k=%r,clip=%r)' % (xs, ws, k, clip))
-        p.want('tvariance_definition', v0, rv, 'tvariance(%r,%r,k=%r,clip=%r)' % (xs, ws, k, clip))
+        a0 = noise(xs)
+        p.want('tmean_definition', t0, rt, 'tmean(%r,%r,k=%r,clip=%r)' % (xs, ws, k, clip), extra=a0)
+        p.want('tvariance_definition', v0, rv, 'tvariance(%r,%r,k=%r,clip=%r)' % (xs, ws, k, clip),
+               extra=(D + 2 * a0) ** 2 - D ** 2)
     return out, p
 
 
@@ -373,7 +452,7 @@ def _c_tscale(fn_name, stat_name, xs, ws, t, k, clip, root):
         return 'undefined:everything_trimmed', p
     if v0 == 0:
         return 'undefined:zero_trimmed_variance', p
-    if rv == 0 or v0 < 1e-24:
+    if rv == 0 or v0 < max(1e-24, (2 * noise(xs)) ** 2):
         # one distinct value survives the trimming: degenerate, although rounding in mystic's
         # trimmed mean makes its own variance a tiny non-zero number (so it does not answer nan)
         return 'undefined:zero_trimmed_variance_hidden_by_rounding', p
@@ -383,8 +462,11 @@ def _c_tscale(fn_name, stat_name, xs, ws, t, k, clip, root):
     if len(y) != len(xs) or isbad(y):
         p.add('shape', tag + ': wrong length or non-finite entries for a defined operation')
         return 'bad', p
-    p.want('target', getattr(mm, stat_name)(y, ws, k, clip), t, stat_name + ' (mystic) after ', tag)
-    p.want('keeps_tmean', mm.tmean(y, ws, k, clip), t0, 'tmean (mystic) after ', tag)
+    ratio = math.sqrt((t * t if root else t) / float(v0))
+    a = p.a = noise(xs, y, t, mag(xs) * ratio)
+    p.want('target', getattr(mm, stat_name)(y, ws, k, clip), t, stat_name + ' (mystic) after ', tag,
+           extra=2 * a if root else p.tol(2, R.spread(y)))
+    p.want('keeps_tmean', mm.tmean(y, ws, k, clip), t0, 'tmean (mystic) after ', tag, extra=a)
     return ('ok:changed' if changed(y, xs) else 'ok:identity'), p
 
 
@@ -466,7 +548,8 @@ def c_weight_norm(xs, ws, mass):
         return 'ok:zero_mass_mean_undefined', p
     if len(y) != len(xs) or isbad(y):
         p.add('shape', tag + ': wrong length or non-finite positions'); return 'bad', p
-    p.want('keeps_mean', float(R.wmean(y, w2)), R.wmean(xs, ws), 'weighted mean (new weights) after ', tag)
+    p.want('keeps_mean', float(R.wmean(y, w2)), R.wmean(xs, ws), 'weighted mean (new weights) after ', tag,
+           extra=noise(xs, y))
     return 'ok', p
 
 
@@ -486,7 +569,8 @@ def _surgery_checks(p, tag, xs, ws, y, w2, expect_w):
             elif not near(w2[i], e):
                 p.add('rescales_rest', '%s: weight %d is %r, reference %s' % (tag, i, w2[i], e))
     p.want('keeps_total_weight', float(R.total(w2)), R.total(ws), 'total weight after ', tag)
-    p.want('keeps_mean', float(R.wmean(y, w2)), R.wmean(xs, ws), 'weighted mean (new weights) after ', tag)
+    p.want('keeps_mean', float(R.wmean(y, w2)), R.wmean(xs, ws), 'weighted mean (new weights) after ', tag,
+           extra=noise(xs, y))
     return True
 
 
@@ -537,7 +621,7 @@ def c_unweighted(xs, ws, index, nullable):
 def pairs_class(pairs, n):
     """'simple': no index is both a first and a second member and no second member has two firsts;
     'cyclic': the undirected pair graph has a cycle (e.g. both (i,j) and (j,i))"""
-    pr = [tuple(n + i if i < 0 else i for i in q) for q in pairs]
+    pr = _norm_pairs(pairs, n)
     I = set(a for a, b in pr); J = [b for a, b in pr]
     if any(a == b for a, b in pr):
         return 'self_pair'
@@ -549,6 +633,16 @@ def pairs_class(pairs, n):
     if not (I & set(J)):
         return 'shared_second_index'
     return 'chained'
+
+
+def _norm_pairs(pairs, n):
+    """pairs with every index in its non-negative form, the same position pair listed once"""
+    out = []
+    for q in pairs:
+        q = tuple(n + i if i < 0 else i for i in q)
+        if q not in out:
+            out.append(q)
+    return out
 
 
 def _components(pairs, n):
@@ -570,7 +664,7 @@ def c_collapse(xs, ws, pairs):
     import mystic.math.measures as mm
     p = P(); p.calls = 1
     n = len(xs)
-    pr = [tuple(n + i if i < 0 else i for i in q) for q in pairs]
+    pr = _norm_pairs(pairs, n)
     cls = pairs_class(pairs, n)
     y, w2 = mm.impose_collapse(set(tuple(q) for q in pairs), xs, ws)
     tag = Lazy('impose_collapse(%r,%r,%r) -> (%r, %r)', sorted(tuple(q) for q in pairs), xs, ws, y, w2)
@@ -578,7 +672,8 @@ def c_collapse(xs, ws, pairs):
         p.add('shape', tag + ': wrong length or non-finite entries')
         return 'bad:' + cls, p
     p.want('keeps_total_weight', float(R.total(w2)), R.total(ws), 'total weight after ', tag)
-    p.want('keeps_mean', float(R.wmean(y, w2)), R.wmean(xs, ws), 'weighted mean (new weights) after ', tag)
+    p.want('keeps_mean', float(R.wmean(y, w2)), R.wmean(xs, ws), 'weighted mean (new weights) after ', tag,
+           extra=noise(xs, y))
     comps, members = _components(pr, n)
     for comp in comps:
         if len(set(float(y[i]) for i in comp)) != 1:
@@ -623,8 +718,14 @@ def index_selections(n):
     out = [None]
     for r in range(n + 1):
         out += [list(c) for c in itertools.combinations(range(n), r)]
-    out += [[-1], [0, -1]]
+    # negative indices are accepted ("allow negative indexing"): last, first-and-last, the most negative
+    # valid index, one position named twice (by both of its indices), an all-negative list
+    out += [[-1], [0, -1]] + NEG_INDEX_EXTRA(n)
     return out
+
+
+def NEG_INDEX_EXTRA(n):
+    return [[-n], [n - 1, -1], [-1, -2]]
 
 
 def pair_selections(n, max_size, reps_only_above=None):
@@ -635,6 +736,55 @@ def pair_selections(n, max_size, reps_only_above=None):
         out += [[list(q) for q in c] for c in itertools.combinations(ordered, r)]
     out += [[[0, -1]], [[-1, 0]]]
     return out
+
+
+def render(pairs, n, mode):
+    """the same pair set with some positions named by their negative index i - n:
+    'neg' every index; 'alias' every occurrence of a position after its first one (so one position is
+    named p in one pair and p - n in another); 'alias_inv' the first occurrence only"""
+    seen = set(); out = []
+    for q in pairs:
+        r = []
+        for i in q:
+            later = i in seen
+            seen.add(i)
+            neg = later if mode == 'alias' else (not later) if mode == 'alias_inv' else True
+            r.append(i - n if neg else i)
+        out.append(r)
+    return out
+
+
+def signed_pair_sets(n, max_size):
+    """every set of up to max_size ordered pairs in which each index is written either as i or as i - n
+    (pairs naming one position twice, such as (n-1, -1), are not collapses and are left out)"""
+    signed = [(i, j) for i in range(-n, n) for j in range(-n, n) if i % n != j % n]
+    out = []
+    for r in range(1, max_size + 1):
+        out += [[list(q) for q in c] for c in itertools.combinations(signed, r)]
+    return out
+
+
+def negative_pair_selections(n, mode, base):
+    """pair sets with negative indices for vectors of length n (see plans): `base` = the non-negative sets in use"""
+    if mode == 'all2':                       # complete up to two pairs
+        out = signed_pair_sets(n, 2)
+        out += [render(q, n, m) for q in base if len(q) > 2 for m in ('alias', 'alias_inv', 'neg')]
+    elif mode == 'singles+alias':            # every signed single pair; every two-pair set in alias form
+        out = signed_pair_sets(n, 1) + [render(q, n, 'alias') for q in base if len(q) == 2]
+    elif mode == 'multi:alias':              # every multi-pair set in alias form, a few single pairs
+        out = [render(q, n, 'alias') for q in base if len(q) > 1] + [[[-1, -2]], [[-n, 1]], [[1, -n]], [[n - 1, -n]]]
+    elif mode == 'multi:all':
+        out = [render(q, n, m) for q in base if len(q) > 1 for m in ('alias', 'alias_inv', 'neg')]
+        out += signed_pair_sets(n, 1)
+    else:
+        raise ValueError(mode)
+    res = []
+    for q in out:
+        if not any(i < 0 for pr in q for i in pr):     # alias form of a set without a repeated position
+            q = render(q, n, 'neg')
+        if q not in res and q not in base:
+            res.append(q)
+    return res
 
 
 PAIR_REPS_4 = [  # one representative per structure for 4 points (quick tier; thorough enumerates all sets)
@@ -649,10 +799,17 @@ def clause_list(n, plan):
     if plan.get('only') == 'pair_triples':
         ordered = [(i, j) for i in range(n) for j in range(n) if i != j]
         return [('collapse', {'pairs': [list(q) for q in c]}) for c in itertools.combinations(ordered, 3)]
+    if plan.get('only') == 'neg_pairs':
+        base = pair_selections(n, 2) + [q for q in PAIR_REPS_4 if n == 4]
+        return [('collapse', {'pairs': q}) for q in negative_pair_selections(n, 'multi:all', base)]
+    if plan.get('only') == 'offset':
+        return offset_clause_list()
     out = [('defs', {})]
     for fname in plan['funcs']:
         for tol in TOLS:
             out.append(('expect', {'fname': fname, 'tol': tol}))
+    for t in BIG_TARGETS:
+        out.append(('mean', {'m': t}))
     for t in TARGETS:
         out.append(('mean', {'m': t}))
         out.append(('variance', {'v': t}))
@@ -671,13 +828,43 @@ def clause_list(n, plan):
     for idx in index_selections(n):
         out.append(('support', {'index': idx}))
         out.append(('unweighted', {'index': idx, 'nullable': True}))
-        out.append(('unweighted', {'index': idx, 'nullable': False}))
+        if idx not in NEG_INDEX_EXTRA(n) or plan.get('thorough'):
+            out.append(('unweighted', {'index': idx, 'nullable': False}))
     sels = pair_selections(n, plan['pair_set_size'][n])
     if plan['pair_reps'] and n == 4:
         sels = sels + [q for q in PAIR_REPS_4 if q not in sels]
+    base = [q for q in sels if len(q) == 1 or q in PAIR_REPS_4] if n == 4 else sels    # n=4: the representatives on every case
+    sels = sels + [q for q in negative_pair_selections(n, plan['neg_pairs'][n], base) if q not in sels]
     for pairs in sels:
         out.append(('collapse', {'pairs': pairs}))
     return out
+
+
+def offset_clause_list():
+    """clauses run on the large-offset vectors: every definition and every shift / scale transform
+    (support surgery is index bookkeeping plus impose_mean and stays on the O(1) alphabet)"""
+    out = [('defs', {}), ('expect', {'fname': 'x', 'tol': 0.0}), ('expect', {'fname': 'abs', 'tol': 0.25})]
+    for t in TARGETS + BIG_TARGETS:
+        out.append(('mean', {'m': t}))
+    for t in TARGETS:
+        out.append(('variance', {'v': t}))
+        out.append(('std', {'s': t}))
+        out.append(('spread', {'r': t}))
+        out.append(('weight_norm', {'mass': t}))
+        for order in (2, 3, 4):
+            out.append(('moment', {'order': order, 'm': t}))
+    for t in (TARGETS[0], TARGETS[-1]):
+        out.append(('median', {'m': t}))
+        out.append(('mad', {'s': t}))
+    for clip in (False, True):
+        out.append(('tmean', {'m': TARGETS[-1], 'k': 20, 'clip': clip}))
+        out.append(('tvariance', {'v': TARGETS[-1], 'k': 20, 'clip': clip}))
+        out.append(('tstd', {'s': TARGETS[-1], 'k': 20, 'clip': clip}))
+    return out
+
+
+def offset_vectors(base, offsets=None):
+    return [[o + x for x in xs] for o in (OFFSETS if offsets is None else offsets) for xs in base]
 
 
 def weight_vectors(n):
@@ -695,6 +882,8 @@ def violate(T, name, params, xs, ws, sub, text, extra=None):
         sig['pairs_class'] = pairs_class(params['pairs'], len(xs))
     if name in ('tmean', 'tvariance', 'tstd'):
         sig['clip'] = params['clip']
+    if mag(xs) >= 1024 or mag(params.get('m')) >= 1024:
+        sig['scale'] = 'large_offset'
     if extra:
         sig.update(extra)
     T.violate(sig, {'clause': name, 'xs': xs, 'ws': ws, 'params': params}, text)
@@ -736,6 +925,31 @@ def shard_grid(item):
             run_case(T, xs, ws, clauses)
     if chunk and wvs:
         T.sample({'xs': chunk[0], 'ws': wvs[-1], 'clauses_per_case': len(clauses)})
+    return T
+
+
+def shard_offset(item):
+    """large-offset vectors: (n, base sample vectors, weight vectors or None for all)"""
+    n, base, wvs = item
+    T = Tally()
+    clauses = offset_clause_list()
+    if wvs is None:
+        wvs = weight_vectors(n)
+    cases = [(xs, ws) for xs in offset_vectors(base) for ws in wvs]
+    for xs, ws in cases:
+        run_case(T, xs, ws, clauses)
+    if cases:
+        T.sample({'xs': cases[-1][0], 'ws': cases[-1][1], 'clauses_per_case': len(clauses), 'family': 'large_offset'})
+    return T
+
+
+def shard_offset_cases(item):
+    n, cases = item
+    T = Tally()
+    clauses = offset_clause_list()
+    for xs0, ws in cases:
+        for xs in offset_vectors([xs0]):
+            run_case(T, xs, ws, clauses)
     return T
 
 
@@ -1000,7 +1214,7 @@ def shard_approx(_):
 # ------------------------------------------------------------------ driver
 def _dispatch(item):
     kind, payload = item
-    return {'grid': shard_grid, 'cases': shard_cases, 'weights': shard_weights, 'norms': shard_norms,
+    return {'grid': shard_grid, 'cases': shard_cases, 'offset': shard_offset, 'offset_cases': shard_offset_cases, 'weights': shard_weights, 'norms': shard_norms,
             'metrics': shard_metrics, 'approx': shard_approx}[kind](payload)
 
 
@@ -1009,8 +1223,10 @@ def _chunks(seq, size):
 
 
 def plans(thorough):
-    full = {'funcs': ['x', 'x*x', 'abs'], 'ks': KS_THOROUGH if thorough else KS,
-            'pair_set_size': {2: 2, 3: 3, 4: 2 if thorough else 1}, 'pair_reps': True}
+    full = {'thorough': thorough, 'funcs': ['x', 'x*x', 'abs'], 'ks': KS_THOROUGH if thorough else KS,
+            'pair_set_size': {2: 2, 3: 3, 4: 2 if thorough else 1}, 'pair_reps': True,
+            'neg_pairs': ({2: 'all2', 3: 'all2', 4: 'multi:alias'} if thorough else
+                          {2: 'all2', 3: 'singles+alias', 4: 'multi:alias'})}
     return full
 
 
@@ -1028,9 +1244,20 @@ def run(ctx):
                     items.append(('grid', (n, ch, plan, (r, 4))))
             for ch in _chunks(orbit_representatives(4, ctx.seed), 40):     # all 220 three-pair sets, per orbit
                 items.append(('cases', (4, ch, {'only': 'pair_triples'})))
+            for ch in _chunks(orbit_representatives(4, ctx.seed), 40):     # all negative-index renderings, per orbit
+                items.append(('cases', (4, ch, {'only': 'neg_pairs'})))
+            for ch in _chunks(orbit_representatives(4, ctx.seed), 60):     # large offsets, per orbit
+                items.append(('offset_cases', (4, ch)))
         else:
             for ch in _chunks(svs, 4):
                 items.append(('grid', (n, ch, plan, None)))
+    # large-offset family: lengths 2 and 3 complete; length 4 unweighted (quick) / per orbit (thorough, above)
+    for ch in _chunks(sample_vectors(3), 3):
+        items.append(('offset', (3, ch, None)))
+    items.append(('offset', (2, sample_vectors(2), None)))
+    if not ctx.thorough:
+        for ch in _chunks(sample_vectors(4), 160):
+            items.append(('offset', (4, ch, [None])))
     for n in (2, 3, 4):
         items.append(('weights', n))
     vecs = [list(v) for k in (1, 2, 3, 4) for v in itertools.product(ALPHA, repeat=k)]
@@ -1051,23 +1278,53 @@ def run(ctx):
                            '(8,855 weighted + 65 unweighted orbits minus degenerate ones; every index subset is applied to each, '
                            'the complete 158,720-case grid is the thorough tier); lengths 2 and 3 are complete'),
         'weight_alphabet': WALPHA, 'weights': 'None or every vector of the same length with positive sum',
-        'targets': TARGETS, 'moment_orders': [2, 3, 4], 'trim_percent': plan['ks'], 'clip': [False, True],
+        'large_offset_family': {
+            'offsets': OFFSETS, 'samples': 'offset + every non-constant vector over the sample alphabet (exact in binary64)',
+            'cases': ('lengths 2 and 3 complete (all weight vectors); length 4 ' +
+                      ('one case per joint-permutation orbit' if ctx.thorough else 'unweighted, all 620 vectors')),
+            'clauses_per_case': len(offset_clause_list()),
+            'clauses': 'defs, expect (x tol 0, abs tol 0.25), impose_mean (all targets), variance / std / spread / weight_norm / moment 2-4 (all targets), '
+                       'median / mad (targets %r), trimmed transforms (k=20, clip both, target %r)' % ([TARGETS[0], TARGETS[-1]], TARGETS[-1])},
+        'targets': TARGETS, 'impose_mean_targets': TARGETS + BIG_TARGETS, 'moment_orders': [2, 3, 4], 'trim_percent': plan['ks'], 'clip': [False, True],
         'functions': plan['funcs'], 'expectation_tol': TOLS,
-        'index_selections': 'None, every subset of range(n), [-1], [0,-1]',
+        'index_selections': 'None, every subset of range(n), [-1], [0,-1], [-n], [n-1,-1] (one position named twice), [-1,-2]',
         'pair_selections': {'max_pairs_in_a_set': plan['pair_set_size'],
-                            'extra': 'negative-index pairs; for n=4 additionally %d multi-pair representatives on every case and, in the thorough tier, '
-                                     'all 220 three-pair sets on one case per joint-permutation orbit' % len(PAIR_REPS_4)},
+                            'extra': 'for n=4 additionally %d multi-pair representatives on every case and, in the thorough tier, '
+                                     'all 220 three-pair sets on one case per joint-permutation orbit' % len(PAIR_REPS_4),
+                            'negative_indices': {
+                                'modes': plan['neg_pairs'],
+                                'all2': 'every set of one or two ordered pairs with each index written as i or as i-n (complete), larger sets in alias / alias_inv / neg form',
+                                'singles+alias': 'every single pair in all four sign forms; every two-pair set in alias form',
+                                'multi:alias': 'every multi-pair set in use in alias form, four single pairs',
+                                'alias': 'every occurrence of a position after its first is written i-n, so one position is named p in one pair and p-n in another '
+                                         '(a set without a repeated position is written all-negative instead); alias_inv: the first occurrence only; neg: all',
+                                'thorough_extra': 'n=4: alias, alias_inv and neg forms of every set of <= 2 pairs and of the representatives, and every signed single pair, '
+                                                  'on one case per joint-permutation orbit',
+                                'pair_sets_with_a_negative_index_per_case': {
+                                    n: sum(1 for name, prm in clause_list(n, plan)
+                                           if name == 'collapse' and any(i < 0 for q in prm['pairs'] for i in q)) for n in (2, 3, 4)}}},
         'Lnorm': {'p': [0, 1, 2, 3, 'inf'], 'vectors': 'all of length 1..4', 'matrices': '2x2, 1x3, 3x1 with axis None/0/1'},
         'metrics': {'names': METRICS, 'x': 'all (n,d) arrays n,d in {1,2}', 'xp_alphabet': xp_alpha,
                     'modes': 'A (pair=False,axis=0), B (pair=True,axis=1), C (1-D,pair=True), D (1-D,dmin=2,axis=0), E (xp=None)'},
         'approx': 'almostEqual / approx_equal / tolerance on 9 values x 9 (tol,rel) pairs incl. exact boundaries',
-        'tolerance': 'relative %g with absolute floor 1 (data are O(1))' % REL,
+        'tolerance': ('|got - reference| <= %g * max(|reference|, 1) + noise term.  Position noise a = %d * 2**-53 * M, M = the largest magnitude a '
+                      'shift/scale construction has to store (inputs, outputs, target, input magnitude x the scale factor).  Noise term: a for a mean / median / '
+                      'trimmed mean, 2a for a range, std or mad, (D+2a)**k - D**k for a central moment of order k (D = range of the data; ~ 4aD for a variance, '
+                      'i.e. relative ~ eps*M/D), 16a/std relative for kurtosis and (3+3|skew|)*2a/std for skewness.  For the O(1) alphabets a ~ 1e-14 and the rule '
+                      'is the former relative 1e-12; for offsets 2**20 / 2**26 the allowed variance error is ~4aD = 6e-8 / 4e-6: two-pass evaluation and '
+                      'scale-then-shift in binary64 stay below 0.08 of the allowance on the unchanged tree (measured), while a raw-moment '
+                      '(E[x^2]-E[x]^2) evaluation errs by ~eps*M**2 = 1e-4 / 0.5 absolute, 1e3..1e5 times the allowance' % (REL, KNOISE)),
     }
     ctx.rule = ("one case = (sample vector, weight vector); every clause (entry point x parameter tuple) is run on every case. "
                 "distinct_nontrivial counts (sample, weight) cases on which at least one transform changed at least one entry, plus "
                 "every distinct Lnorm / metric / approx input; states counts distinct cases; traces counts clause executions; "
                 "histograms give per-clause outcomes including 'undefined:*' (operation not defined there, not judged) and 'identity'")
     ctx.assumptions = [
+        "floating-point tolerance rule (see bounds.tolerance): every stored position may be off by 32 ulps of the largest magnitude handled; "
+        "statistics are allowed the first-order propagation of that noise and nothing more, so an implementation whose error grows like "
+        "eps*M**2/D**2 (cancellation of raw moments) is rejected on the large-offset vectors while scale-then-shift in binary64 is accepted",
+        "a pair such as (n-1,-1) that names one position twice is not a collapse and is not enumerated; pair sets that name one position by "
+        "both of its indices in different pairs are judged on the positions they denote",
         "operations are judged only where defined: non-negative targets for variance/std/spread/mad/tvariance/tstd, "
         "non-zero source statistic for scale-type transforms, some weight left after support surgery, non-empty support for ess_*",
         "median / mad / trimmed transforms are judged under mystic's own statistic (DESIGN section 5); agreement of the weighted "
